@@ -196,6 +196,53 @@ def run(tier: str, seed: int) -> int:
                             import traceback
                             chk.violation(f"raises|{kind}|{type(ex).__name__}|{str(ex)[:40]}", " ; ".join(desc) + f"\n  raises {type(ex).__name__}: {ex}\n" + traceback.format_exc()[-800:],
                                           "# " + " ; ".join(desc), ctx=dict(site="dask", mode="raises", kind=kind))
+            # datasets with MORE THAN TEN partitions (partition numbers travel as strings through file names and the bounds
+            # metadata - ParquetDS!LoadOrder): read back, queried, judged by Trace_GeoFrame and compared with pandas
+            from . import c01
+            from .tlc import validate_trace
+            from spatialpandas.io import read_parquet_dask
+            import dask.dataframe as dd
+            recs = []
+            for kind in ("point", "line", "polygon"):
+                for nparts in ([13] if quick else [11, 13, 16]):
+                    for writer in ("to_parquet", "pack"):
+                        n = nparts * 2
+                        elems = [c01.rand_element(chk.rng, kind, 20) for _ in range(n)]
+                        elems = [e if not e["null"] else elems[(i + 1) % n] for i, e in enumerate(elems)] if writer == "pack" else elems
+                        pdf = sp.GeoDataFrame({"id": np.arange(1, n + 1), "geometry": geom.make_array(kind, elems)})
+                        path = os.path.join(tmp, f"many_{kind}_{nparts}_{writer}.parq")
+                        try:
+                            if writer == "to_parquet":
+                                dd.from_pandas(pdf, npartitions=nparts).to_parquet(path)
+                            else:
+                                dd.from_pandas(pdf, npartitions=3).pack_partitions_to_parquet(path, npartitions=nparts, p=8)
+                        except Exception:  # noqa: BLE001
+                            continue
+                        rd = read_parquet_dask(path)
+                        whole = rd.compute()
+                        order = {int(i): q for q, i in enumerate(whole["id"])}
+                        els_loaded = [elems[int(i) - 1] for i in whole["id"]]
+                        for _ in range(4):
+                            a0, b0 = sorted(chk.rng.sample(range(-21, 22), 2))
+                            c0, d0 = sorted(chk.rng.sample(range(-21, 22), 2))
+                            got = rd.cx[a0:b0, c0:d0].compute()
+                            chk.count()
+                            pos = [order[int(i)] + 1 for i in got["id"]]
+                            recs.append(dict(kind=kind, elems=[dict(null=e["null"], g=e["g"]) for e in els_loaded],
+                                             key=[[a0, b0, 0], [c0, d0, 0]], res=pos, container=f"read_parquet_dask({writer}, {rd.npartitions} partitions)"))
+                            pw = list(whole.cx[a0:b0, c0:d0]["id"])
+                            if list(got["id"]) != pw:
+                                chk.violation(f"many|{kind}|{writer}", f"cx on a {rd.npartitions}-partition dataset written by {writer} and read back returns rows {list(got['id'])}, "
+                                              f"pandas cx on compute() {pw}", "", ctx=dict(site="dask.cx", kind=kind, mode="many-partitions"))
+            verdicts, tres = validate_trace("Trace_GeoFrame", recs, timeout=3000)
+            chk.add_tlc(tres)
+            chk.traces += len(recs)
+            for rec, st in verdicts:
+                if st["verdict"] == "mismatch":
+                    chk.violation(f"many-trace|{rec['kind']}", f"cx on {rec['container']} returned positions {rec['res']} - rejected by Trace_GeoFrame", "",
+                                  ctx=dict(site="dask.cx", kind=rec["kind"], mode="many-partitions"))
+                elif st["verdict"] == "ok" and rec["res"]:
+                    chk.nontrivial_case(hash(repr(rec)))
     finally:
         shutil.rmtree(tmp, ignore_errors=True)
     if bad and len(chk.violations) == before:
